@@ -33,7 +33,7 @@ TRUSTED_BASE = [
     "the five policy facts the main theorem C08_cache_fresh rests on are regex-scraped from ccompiler.lua (Gen.v) and checked behaviourally by replaying the three former defect histories (same-second in real time) on every run",
 ]
 ASSUMPTIONS = [
-    "the behaviour of a binary is a function of (generated C, compiler command, the world the C compiler reads: compiler + headers/extra C files); the main theorem C08_cache_fresh covers histories in which every world change shows in ccinfo (the property's own step kinds, discharged in ProofsEdits.v); a header-only edit is modelled (world w -> w+10), refuted (C08_cache_fresh_refuted_header_edit) and replayed as a known finding",
+    "the behaviour of a binary is a function of (generated C, compiler command, the world the C compiler reads: compiler + headers/extra C files); the main theorem C08_cache_fresh covers histories in which every world change shows in ccinfo (the property's own step kinds, discharged in ProofsEdits.v); since 304728c the heading hash covers the local headers the generated C includes that are found in the cincdir directories (world w -> w+10: visible, must be fresh); edits of headers reached only through --cflags -I (w -> w+100), of system headers and of `## cfile` extra C files remain invisible: modelled, refuted (C08_cache_fresh_refuted_header_edit) and replayed as the open known finding",
     "the hash written into the heading is injective on (code, ccinfo, command) (BLAKE2b collisions ignored)",
     "invocations sharing a cache directory are sequential and the clock is monotone; -o never names a file inside the cache directory",
     "a build killed while writing its output leaves an EMPTY file (Interrupt step; the --cc wrapper truncates the output): a truncated non-empty output with a fresh mtime would pass the size test",
@@ -58,13 +58,13 @@ THEOREM_CLASSES = {
 }
 UNPROVED = [
     "that compile_code/compile_binary are the machine of coq/C08/Model.v: tied by replaying histories on the real compiler and by a structural scrape of the two conditions, not proved",
-    "header-only edits (cinclude'd headers, extra C files): outside the property's step kinds; modelled, refuted (C08_cache_fresh_refuted_header_edit) and replayed as a known finding",
+    "edits of what the C compiler reads that the heading hash does not cover: headers reached only through --cflags -I, system headers, `## cfile` extra C files (headers found in cincdir directories ARE covered since 304728c); outside the property's step kinds; modelled, refuted (C08_cache_fresh_refuted_header_edit) and replayed as the open known finding",
     "a build killed while writing leaves an EMPTY file (what Interrupt models and the --cc wrapper does); a killed linker that leaves a truncated non-empty file with a fresh mtime would be served: not modelled, not tested",
     "file-name aliasing between slots (a source named a.c.nelua uses <cache>/a.c both as C file and as binary: the real compiler stops with 'input file is the same as output file'), output modes with another extension (--object/--static-lib/--shared-lib/--assembly share the slot's C file; their mode sequences are compared in C07's differential, not here), -o inside the cache directory, concurrent invocations, non-monotone clocks",
     "the generated C of a required module / -D / -P edit is the front end's business: the model only uses that the binary is a function of (C file, command, world)",
 ]
 MANIFEST_ENTRY = {
-    "text": "proof: for the policy scraped from compile_binary/compile_code, every history over the property's step kinds (source, required-module, -D/-P/--cflags/--release edits, source and compiler switches, -o, --no-cache, --code, interrupted builds), at any spacing, runs a binary built from the current text, and 'expected' is the model's own --no-cache run in an empty directory (C08_cache_fresh, C08_expected_is_nocache_run, C08_source_and_option_edits_show_in_text); model = code is tied by real-time history replay; documented limit, refuted and keyed as a known finding: an edit of a cinclude'd header alone",
+    "text": "proof: for the policy scraped from compile_binary/compile_code, every history over the property's step kinds (source, required-module, -D/-P/--cflags/--release edits, source and compiler switches, -o, --no-cache, --code, interrupted builds), at any spacing, runs a binary built from the current text, and 'expected' is the model's own --no-cache run in an empty directory (C08_cache_fresh, C08_expected_is_nocache_run, C08_source_and_option_edits_show_in_text); model = code is tied by real-time history replay; documented limit, refuted and keyed as the open known finding: an edit of a header reached only through --cflags -I (or of a `## cfile` extra C file) alone; cincdir headers are hashed since 304728c",
     "note": "trusted: coqc, regex scrape of the two conditions of compile_binary (comments stripped, conjunct lists) and of the heading/hash in compile_code, lfs whole-second mtimes, the replayer (harness/C08/replay.py: real compiler, os.utime ageing, --cc wrapper), gcc/clang; assumes an injective heading hash, sequential invocations, a killed build leaving an empty file, distinct slot file names",
     "technique": "Coq state machine over a cache directory with an inductive invariant, parametric in a scraped policy + replay of generated/corpus/witness histories on the real compiler with the model run on observed write times",
 }
@@ -73,9 +73,12 @@ TPS = 10
 W_SAME_SECOND = "R:0:-:0:0:0:0:0:0 R:0:-:1:0:0:0:0:0"
 W_NOHEAD = "R:0:-:0:0:0:1:0:11 A:30 R:0:-:0:1:0:1:0:0"     # first build crosses a second boundary (matters under <)
 W_SHARED_OUT = "R:0:0:0:0:0:0:0:0 A:30 R:1:0:1:0:0:0:0:0 A:30 R:0:0:0:0:0:0:0:0"
-# world 0 -> 10: same compiler, edited C header (cinclude): outside the property's step kinds, a known finding
+# world 0 -> 10: same compiler, edited C header found through cincdir: hashed into the heading since 304728c, must be fresh
 W_HEADER_EDIT = "R:0:-:0:0:0:0:0:11 R:0:-:0:0:10:0:0:0"
-WITNESSES = [("same-second", W_SAME_SECOND), ("nocheading", W_NOHEAD), ("shared-output", W_SHARED_OUT), ("header-edit", W_HEADER_EDIT)]
+# world 0 -> 100: edited C header reached only through --cflags -I: the documented remaining limit (open known finding)
+W_HEADER_EDIT_I = "R:0:-:0:0:0:0:0:11 R:0:-:0:0:100:0:0:0"
+WITNESSES = [("same-second", W_SAME_SECOND), ("nocheading", W_NOHEAD), ("shared-output", W_SHARED_OUT), ("header-edit", W_HEADER_EDIT),
+             ("header-edit-cflags-I", W_HEADER_EDIT_I)]
 
 
 def key_of(tokens):
@@ -357,13 +360,14 @@ def shrink(model, tokens, rp):
         if len({x["cc"] % 10 for x in runs_w}) == 1:
             for x in cand:
                 if x["k"] != "A":
-                    x["cc"] = 10 * (x["cc"] // 10)
-        ren = {}
+                    x["cc"] = x["cc"] - x["cc"] % 10
+        ren, renx = {}, {}
         for x in cand:
             if x["k"] != "A":
-                hv = x["cc"] // 10
+                hv, hx = (x["cc"] // 10) % 10, x["cc"] // 100
                 ren.setdefault(hv, len(ren))
-                x["cc"] = x["cc"] % 10 + 10 * ren[hv]
+                renx.setdefault(hx, len(renx))
+                x["cc"] = x["cc"] % 10 + 10 * ren[hv] + 100 * renx[hx]
         if _fmt(cand, rp) != _fmt(steps, rp) and fails(cand):
             steps = cand
         for f in ("code", "cmd", "slot", "out"):         # rename by first occurrence (worlds keep their meaning)
@@ -427,9 +431,14 @@ def gen_history(rng, flavour):
         elif c < .52:
             cur["cmd"] = rng.choice([x for x in (0, 1, 2, 100, 101) if x != cur["cmd"]])   # --cflags / --release
         elif c < .52 + p_cc:
-            cur["cc"] = (1 - cur["cc"] % 10) + 10 * (cur["cc"] // 10)                   # compiler behind the name changes
+            cur["cc"] = (1 - cur["cc"] % 10) + (cur["cc"] - cur["cc"] % 10)             # compiler behind the name changes
         elif c < .52 + p_cc + p_hdr:
-            cur["cc"] = cur["cc"] % 10 + 10 * (1 - cur["cc"] // 10)                     # the included C header is edited
+            hv, hx = (cur["cc"] // 10) % 10, cur["cc"] // 100
+            if rng.random() < .5:
+                hv = 1 - hv                                                             # the header found through cincdir is edited
+            else:
+                hx = 1 - hx                                                             # the header found only through --cflags -I is edited
+            cur["cc"] = cur["cc"] % 10 + 10 * hv + 100 * hx
         elif c < .70 and flavour != "spaced":
             cur["slot"] = 1 - cur["slot"]
         cur["nohead"] = nohead_hist and rng.random() < .8
@@ -649,7 +658,7 @@ def correspond(ctx):
     cov.update({
         "main_theorem": ("C08_cache_fresh : cache_fresh GENPOL (FULL strength over the property's step kinds - source/module/-D/-P/--cflags/--release edits, "
                          "source and compiler switches, -o, --no-cache, --code, interrupted builds - every history, every spacing) is the obligation discharged "
-                         "for the policy scraped from the current tree; documented limit: header-only edits (C08_cache_fresh_refuted_header_edit, known finding)") if full_now else
+                         "for the policy scraped from the current tree; documented limit: edits of headers not found in cincdir directories / extra C files (C08_cache_fresh_refuted_header_edit, open known finding)") if full_now else
                         "the scraped policy does NOT satisfy the premises of the full theorem: C08_cache_fresh cannot check (see proof_problems)",
         "full_theorem_premises_hold_for_scraped_policy": bool(full_now),
         "evaluations": n_inv,
